@@ -208,7 +208,16 @@ def r_tab_1904(ctx, rep):
                         rep.violation("R-TAB-1904", key, loc(arm), "the workbookPr arm does not accept both xsd:boolean spellings of date1904 (\"1\" and \"true\"; found literals %s): Excel writes date1904=\"1\", so the 1904 date system would be lost" % sorted(lits))
                     # the arm is selected by local name, so extension elements (x15:workbookPr in extLst) reach it
                     # too: an element without the attribute must leave the flag alone
-                    resets = [n for a in assigns for n in walk(a["r"]) if n.get("k") == "Lit" and lit_value(n) is False]
+                    resets = []
+                    for a in assigns:
+                        for n, anc in walk_anc(a["r"]):
+                            if n.get("k") == "Lit" and lit_value(n) is False:
+                                par = [x for x in anc if x.get("k") not in ("DropTemps", "Use", "BlockExpr", "Block")]
+                                # an argument (`unwrap_or(false)`, a comparison operand) is not a branch value
+                                if not par or par[-1].get("k") in ("Match", "If") or par[-1].get("k") is None or par[-1] is a:
+                                    resets.append(n)
+                        if lit_value(a["r"]) is False:
+                            resets.append(a["r"])
                     if resets:
                         rep.violation("R-TAB-1904", key + "|absent-resets", loc(resets[0]), "the workbookPr arm assigns a constant false to is_1904 (the attribute-absent case): `<x15:workbookPr/>` inside extLst, which Excel writes after the real workbookPr, would reset the 1904 date system")
                     elif assigns:
@@ -507,37 +516,42 @@ def r_chase(ctx, rep):
                 continue
             cond, body = top["cond"], top["then"]
             cvars = {p["res"]["lid"]: p["res"]["local"] for p in walk_k(cond, "Path") if "local" in p.get("res", {})}
-            if len(cvars) != 1:
+            cond_calls = any(m.get("k") in ("MethodCall", "Call") for m in walk(cond))
+            if not cvars:
                 continue
-            if any(m.get("k") in ("MethodCall", "Call") for m in walk(cond)):
-                continue   # conditions like `!rgce.is_empty()` / `i < s.len()` consult more than v
-            (vlid, vname), = cvars.items()
-            # assignments to v in the body that depend on v (directly, or through a container the body fills using v)
-            assigns = [a for a in walk_k(body, "Assign") if path_local(a["l"]) and path_local(a["l"])[1] == vlid]
-            if not assigns:
-                continue
-            fed_by_v = set()
-            for c in walk_k(body, "MethodCall", "Call"):
-                if any(p.get("res", {}).get("lid") == vlid for p in walk_k(c, "Path")):
-                    if c.get("k") == "MethodCall" and path_local(c["recv"]):
-                        fed_by_v.add(path_local(c["recv"])[1])
-            dep = False
-            for a in assigns:
-                used = {p["res"]["lid"] for p in walk_k(a["r"], "Path") if "local" in p.get("res", {})}
-                via_data = any(any(p.get("res", {}).get("lid") == vlid for p in walk_k(ix["idx"], "Path")) for ix in walk_k(a["r"], "Index")) or \
-                    any(any(p.get("res", {}).get("lid") == vlid for p in walk_k(c, "Path")) for c in walk_k(a["r"], "MethodCall", "Call") if not (callee(c) or "").startswith("core::num"))
-                if via_data or used & fed_by_v:
-                    dep = True
-            if not dep:
-                continue
-            n += 1
-            k += 1
-            key = "%s|R-CHASE|while#%d %s" % (fn.name, k, vname)
-            # any other exit: break / return (not `?`) inside the body, or the condition mentions a second variable
-            exits = [b for b in walk(body) if b.get("k") in ("Break", "Ret") and not b["span"].get("desugar")]
-            if exits:
-                rep.holds("R-CHASE", key, loc(lp), "the chain walk over `%s` has an additional exit at %s" % (vname, loc(exits[0])))
-            else:
-                rep.violation("R-CHASE", key, loc(lp), "%s: `while` loop over `%s` re-defines `%s` from data selected by `%s` itself and has no other exit: a cyclic chain in the file makes it run forever (and grow its output until memory is exhausted)" % (fn.name, vname, vname, vname))
+            if cond_calls and len(cvars) == 1 and not any(a for a in walk_k(body, "Assign") if path_local(a["l"]) and path_local(a["l"])[1] in cvars):
+                continue   # conditions like `!rgce.is_empty()` / `i < s.len()`: not a walk over a chained variable
+            for vlid, vname in sorted(cvars.items()):
+                # assignments to v in the body that depend on v (directly, or through a container the body fills using v)
+                assigns = [a for a in walk_k(body, "Assign") if path_local(a["l"]) and path_local(a["l"])[1] == vlid]
+                if not assigns:
+                    continue
+                fed_by_v = set()
+                for c in walk_k(body, "MethodCall", "Call"):
+                    if any(p.get("res", {}).get("lid") == vlid for p in walk_k(c, "Path")):
+                        if c.get("k") == "MethodCall" and path_local(c["recv"]):
+                            fed_by_v.add(path_local(c["recv"])[1])
+                dep = False
+                for a in assigns:
+                    used = {p["res"]["lid"] for p in walk_k(a["r"], "Path") if "local" in p.get("res", {})}
+                    via_data = any(any(p.get("res", {}).get("lid") == vlid for p in walk_k(ix["idx"], "Path")) for ix in walk_k(a["r"], "Index")) or \
+                        any(any(p.get("res", {}).get("lid") == vlid for p in walk_k(c, "Path")) for c in walk_k(a["r"], "MethodCall", "Call") if not (callee(c) or "").startswith("core::num"))
+                    if via_data or used & fed_by_v:
+                        dep = True
+                if not dep:
+                    continue
+                n += 1
+                k += 1
+                key = "%s|R-CHASE|while#%d %s" % (fn.name, k, vname)
+                # any other exit: break / return (not `?`) inside the body, or the condition also depends on a second
+                # variable that the body updates (a counter, a visited set) or on a call (a length against a limit)
+                exits = [b for b in walk(body) if b.get("k") in ("Break", "Ret") and not b["span"].get("desugar")]
+                others = [nm for lid, nm in cvars.items() if lid != vlid and any(path_local(a["l"]) and path_local(a["l"])[1] == lid for a in list(walk_k(body, "Assign")) + list(walk_k(body, "AssignOp")))]
+                if exits:
+                    rep.holds("R-CHASE", key, loc(lp), "the chain walk over `%s` has an additional exit at %s" % (vname, loc(exits[0])))
+                elif others or cond_calls:
+                    rep.holds("R-CHASE", key, loc(lp), "the chain walk over `%s` is also bounded by its condition (%s)" % (vname, ", ".join("`%s`" % o for o in others) or "a call in the condition"))
+                else:
+                    rep.violation("R-CHASE", key, loc(lp), "%s: `while` loop over `%s` re-defines `%s` from data selected by `%s` itself and has no other exit: a cyclic chain in the file makes it run forever (and grow its output until memory is exhausted)" % (fn.name, vname, vname, vname))
     if n < 2:
         rep.anchor_missing("R-CHASE", "self-chasing while loops (the two CFB chain walks); found %d" % n)
